@@ -132,6 +132,7 @@ class World:
         hc_ws_stream.time = wall
         self._probe_handlers()
         self._probe_reader_push()
+        self._guard_priority_tree()
         self._tls_stub()
 
     def _tls_stub(self) -> None:
@@ -200,6 +201,44 @@ class World:
                 return real(app, config, context, state, stream)
 
             run_mod.TCPServer = factory
+
+    def _guard_priority_tree(self) -> None:
+        """Watchdog around the `priority` library (2.0.0): certain PRIORITY sequences (a stream made to depend on
+        its own descendant, exclusively re-parented later) leave a cycle in its tree, and remove_stream() then
+        loops for ever inside the library, freezing the whole event loop (known finding F47).  A simulated run
+        cannot be allowed to hang, so the watchdog turns the endless loop into an exception and marks the run;
+        it changes nothing on runs where the library terminates."""
+        try:
+            import priority.priority as pp
+
+            if getattr(pp, "_hcsim_guarded", False):
+                return
+            orig_add = pp.Stream.add_child
+            orig_remove = pp.PriorityTree.remove_stream
+            state = {"n": 0}
+
+            class PriorityTreeLoop(Exception):
+                pass
+
+            def add_child(self_: Any, child: Any) -> None:
+                state["n"] += 1
+                if state["n"] > 100000:
+                    state["n"] = 0
+                    w = World.current
+                    if w is not None:
+                        w.sim.probe("priority.tree_loop")
+                    raise PriorityTreeLoop("priority.PriorityTree.remove_stream does not terminate (cyclic tree)")
+                return orig_add(self_, child)
+
+            def remove_stream(self_: Any, stream_id: int) -> None:
+                state["n"] = 0
+                return orig_remove(self_, stream_id)
+
+            pp.Stream.add_child = add_child
+            pp.PriorityTree.remove_stream = remove_stream
+            pp._hcsim_guarded = True
+        except Exception as error:  # pragma: no cover
+            self.sim.notes.append(f"priority guard unavailable: {error!r}")
 
     def _probe_reader_push(self) -> None:
         """Observation only: count StreamBuffer.push calls made from the connection's reader task
